@@ -1,9 +1,250 @@
 (* Property C17 — management commands are authorised, act as specified; bad ones are refused safely.
-   Only theorem statements closed by `exact`, each followed by Print Assumptions. *)
-From Mgmt Require Import Model Spec Proofs.
+   Only theorem statements closed by `exact`, each followed by Print Assumptions.
+   [rib_to_fib] and [face_cleanup] stand for table.Rib's re-flattening into the FIB and Rib.CleanUpFace (C06); [allow] is
+   the configuration switch mgmt.allow_localhop. Every theorem holds for all of them.
+   [run] is one iteration of Thread.Run on a received Interest; [Panic] is any unchecked index / nil dereference / failed
+   type assertion of the Go handlers. Status codes, prefixes, verbs, defaults and bounds are the translated GenConsts.v. *)
+From Mgmt Require Import Model Spec Tables Proofs Effects.
 Open Scope N_scope.
 
-(* the module and verb names the model dispatches on are the ones the source registers (translated data) *)
-Theorem consts_match : consts_match_model = true.
-Proof. exact consts_match_model_ok. Qed.
+(* ---- translated data agrees with what the model dispatches on; the bounds it relies on ---- *)
+Theorem consts_match : consts_match_model = true /\ k_missing_status = [].
+Proof. exact (conj consts_match_model_ok eq_refl). Qed.
 Print Assumptions consts_match.
+
+Theorem guards_in_source :
+  (k_ContentStoreModule_local_only = true /\ k_FaceModule_local_only = true /\ k_FIBModule_local_only = true /\
+   k_ForwarderStatusModule_local_only = true /\ k_StrategyChoiceModule_local_only = true /\ k_RIBModule_local_only = false) /\
+  (k_run_localhop_guarded = true /\ k_run_min_extra = 2).
+Proof. exact (conj local_only_flags run_guard_flags). Qed.
+Print Assumptions guards_in_source.
+
+Theorem defaults_are_the_stated_ones :
+  k_RIBModule_register_default_origin = k_route_origin_app /\ k_RIBModule_register_default_cost = 0 /\
+  k_RIBModule_register_default_flags = k_route_flag_child_inherit /\ k_RIBModule_unregister_default_origin = k_route_origin_app /\
+  k_FIBModule_add_default_cost = 0.
+Proof. exact defaults_as_stated. Qed.
+Print Assumptions defaults_are_the_stated_ones.
+
+(* ---- mgmt_authorised: a command changes forwarder state only under /localhost/nfd, or - RIB commands only - under
+   /localhop/nfd when localhop management is enabled. (That only local faces can send under /localhost is C09.) ---- *)
+Theorem mgmt_authorised : forall rib_to_fib face_cleanup allow st vs c st' vs' r,
+  run rib_to_fib face_cleanup allow st vs c = Ok st' vs' r -> st' = st \/ authorised allow (c_name c) = true.
+Proof. exact run_authorised. Qed.
+Print Assumptions mgmt_authorised.
+
+(* ---- mgmt_reject_pure: whatever is not answered with status 200 (4xx/5xx, silent drop, dataset) changes nothing ---- *)
+Theorem mgmt_reject_pure : forall rib_to_fib face_cleanup allow st vs c st' vs' r,
+  run rib_to_fib face_cleanup allow st vs c = Ok st' vs' r -> accepted r = false -> st' = st.
+Proof. exact run_pure. Qed.
+Print Assumptions mgmt_reject_pure.
+
+Theorem mgmt_status_class : forall rib_to_fib face_cleanup allow st vs c st' vs' r,
+  run rib_to_fib face_cleanup allow st vs c = Ok st' vs' r -> spec_status_class r = true.
+Proof. exact run_classed. Qed.
+Print Assumptions mgmt_status_class.
+
+(* ---- mgmt_total: no Interest makes the management thread panic (indexing past the strategy prefix, nil parameters or
+   filter, non-NDNLP link service), given the face-table invariant that only null/internal faces are non-NDNLP ---- *)
+Theorem mgmt_total : forall rib_to_fib face_cleanup allow st vs c,
+  faces_wf st = true -> run rib_to_fib face_cleanup allow st vs c <> Panic.
+Proof. exact run_total. Qed.
+Print Assumptions mgmt_total.
+
+(* ---- invariants kept by every command: only instantiated strategies in the strategy table and the root keeps one;
+   every NDNLP face keeps an MTU above the largest link overhead (mtu_floor); CS capacity stays non-negative;
+   the face-table invariant ---- *)
+Theorem mgmt_keeps_invariants : forall rib_to_fib face_cleanup allow st vs c st' vs' r,
+  inv st = true -> run rib_to_fib face_cleanup allow st vs c = Ok st' vs' r -> inv st' = true.
+Proof. exact run_keeps_inv. Qed.
+Print Assumptions mgmt_keeps_invariants.
+
+(* ---- datasets_exact: every status dataset (single segment) lists exactly the table it reports ---- *)
+Theorem datasets_exact : forall rib_to_fib face_cleanup allow st vs c st' vs' r,
+  run rib_to_fib face_cleanup allow st vs c = Ok st' vs' r -> spec_dataset c r st' = true.
+Proof. exact run_ds_exact. Qed.
+Print Assumptions datasets_exact.
+
+(* ---- the model meets the step specification that the runner evaluates on the implementation's observations ---- *)
+Theorem mgmt_step_spec : forall rib_to_fib face_cleanup allow st vs c st' vs' r,
+  run rib_to_fib face_cleanup allow st vs c = Ok st' vs' r -> spec_step allow st c r st' = true.
+Proof. exact run_spec_step. Qed.
+Print Assumptions mgmt_step_spec.
+
+(* ---- all histories: from any state meeting the invariants, every sequence of commands runs without panic, every step
+   meets the step specification and the invariants hold after every step ---- *)
+Theorem mgmt_all_histories : forall rib_to_fib face_cleanup allow cs st vs, inv st = true ->
+  exists tr, run_trace rib_to_fib face_cleanup allow st vs cs = Some tr /\ length tr = length cs /\ Forall (step_good allow) tr.
+Proof. exact all_histories. Qed.
+Print Assumptions mgmt_all_histories.
+
+(* ---- mgmt_effect_exact, verb by verb (lookups: rib_find / fib_find / strat_find) ---- *)
+Theorem mgmt_effect_rib_register : forall rib_to_fib st vs c a nm,
+  has_params c a -> a_name a = Some nm ->
+  (explicit_face a = true -> face_exists st (acts_on c a) = true) ->
+  (forall e, a_exp a = Some e -> e <= k_RIBModule_register_max_expiration) ->
+  let fid := acts_on c a in
+  let origin := oget (a_origin a) k_route_origin_app in
+  let cost := oget (a_cost a) 0 in
+  let flags := oget (a_flags a) k_route_flag_child_inherit in
+  exists st' echo,
+    rib_register rib_to_fib st vs c = Ok st' vs (RCtl 200 echo (c_inface c)) /\
+    rib_find (s_rib st') nm fid origin = Some (Build_route fid origin cost flags (a_exp a)) /\
+    (forall n' f o, (n', f, o) <> (nm, fid, origin) -> rib_find (s_rib st') n' f o = rib_find (s_rib st) n' f o) /\
+    s_fib st' = rib_to_fib (s_rib st') nm (s_fib st) /\
+    s_strat st' = s_strat st /\ s_cs st' = s_cs st /\ s_faces st' = s_faces st /\
+    a_name echo = Some nm /\ a_face echo = Some fid /\ a_origin echo = Some origin /\ a_cost echo = Some cost /\ a_flags echo = Some flags.
+Proof. exact rib_register_effect. Qed.
+Print Assumptions mgmt_effect_rib_register.
+
+Theorem mgmt_effect_rib_unregister : forall rib_to_fib st vs c a nm,
+  has_params c a -> a_name a = Some nm -> rib_wf (s_rib st) ->
+  let fid := acts_on c a in
+  let origin := oget (a_origin a) k_route_origin_app in
+  exists st' echo,
+    rib_unregister rib_to_fib st vs c = Ok st' vs (RCtl 200 echo (c_inface c)) /\
+    rib_find (s_rib st') nm fid origin = None /\
+    (forall n' f o, (n', f, o) <> (nm, fid, origin) -> rib_find (s_rib st') n' f o = rib_find (s_rib st) n' f o) /\
+    s_fib st' = rib_to_fib (s_rib st') nm (s_fib st) /\
+    s_strat st' = s_strat st /\ s_cs st' = s_cs st /\ s_faces st' = s_faces st.
+Proof. exact rib_unregister_effect. Qed.
+Print Assumptions mgmt_effect_rib_unregister.
+
+Theorem mgmt_effect_fib_add : forall st vs c a nm,
+  has_params c a -> a_name a = Some nm ->
+  (explicit_face a = true -> face_exists st (acts_on c a) = true) ->
+  let fid := acts_on c a in
+  let cost := oget (a_cost a) 0 in
+  exists st' echo,
+    fib_add st vs c = Ok st' vs (RCtl 200 echo (c_inface c)) /\
+    fib_find (s_fib st') nm fid = Some cost /\
+    (forall n' f, (n', f) <> (nm, fid) -> fib_find (s_fib st') n' f = fib_find (s_fib st) n' f) /\
+    s_rib st' = s_rib st /\ s_strat st' = s_strat st /\ s_cs st' = s_cs st /\ s_faces st' = s_faces st.
+Proof. exact fib_add_effect. Qed.
+Print Assumptions mgmt_effect_fib_add.
+
+Theorem mgmt_effect_fib_remove : forall st vs c a nm,
+  has_params c a -> a_name a = Some nm -> fib_wf (s_fib st) ->
+  let fid := acts_on c a in
+  exists st' echo,
+    fib_remove_cmd st vs c = Ok st' vs (RCtl 200 echo (c_inface c)) /\
+    fib_find (s_fib st') nm fid = None /\
+    (forall n' f, (n', f) <> (nm, fid) -> fib_find (s_fib st') n' f = fib_find (s_fib st) n' f) /\
+    s_rib st' = s_rib st /\ s_strat st' = s_strat st /\ s_cs st' = s_cs st /\ s_faces st' = s_faces st.
+Proof. exact fib_remove_effect'. Qed.
+Print Assumptions mgmt_effect_fib_remove.
+
+Theorem mgmt_effect_strategy_set : forall st vs c a nm s avail v vopt,
+  has_params c a -> a_name a = Some nm ->
+  In (s, avail) k_strategies -> strategy_versions k_strategies (gcomp s) = Some avail ->
+  (match vopt with
+   | Some vb => a_strategy a = Some (strategy_prefix ++ [gcomp s; mkc k_typ_version vb]) /\ parse_nat vb = Some v /\ In v avail
+   | None => a_strategy a = Some (strategy_prefix ++ [gcomp s]) /\ max_version avail = Some v
+   end) ->
+  let installed := strategy_prefix ++ [gcomp s; version_comp v] in
+  exists st' echo,
+    strat_set_cmd st vs c = Ok st' vs (RCtl 200 echo (c_inface c)) /\
+    strat_find (s_strat st') nm = Some installed /\
+    (forall n', n' <> nm -> strat_find (s_strat st') n' = strat_find (s_strat st) n') /\
+    known_strategy installed = true /\
+    s_rib st' = s_rib st /\ s_fib st' = s_fib st /\ s_cs st' = s_cs st /\ s_faces st' = s_faces st /\
+    a_strategy echo = Some installed.
+Proof. exact strat_set_effect'. Qed.
+Print Assumptions mgmt_effect_strategy_set.
+
+Theorem mgmt_effect_strategy_unset : forall st vs c a nm,
+  has_params c a -> a_name a = Some nm -> nm <> [] -> NoDup (map fst (s_strat st)) ->
+  exists st' echo,
+    strat_unset_cmd st vs c = Ok st' vs (RCtl 200 echo (c_inface c)) /\
+    strat_find (s_strat st') nm = None /\
+    (forall n', n' <> nm -> strat_find (s_strat st') n' = strat_find (s_strat st) n') /\
+    s_rib st' = s_rib st /\ s_fib st' = s_fib st /\ s_cs st' = s_cs st /\ s_faces st' = s_faces st.
+Proof. exact strat_unset_effect'. Qed.
+Print Assumptions mgmt_effect_strategy_unset.
+
+Theorem mgmt_effect_cs_config : forall st vs c a cap,
+  has_params c a -> a_capacity a = Some cap -> cap <= k_ContentStoreModule_config_max_capacity ->
+  isSome (a_flags a) = isSome (a_mask a) ->
+  exists echo, cs_config st vs c = Ok (set_cs st (Z.of_N cap)) vs (RCtl 200 echo (c_inface c)) /\ a_capacity echo = Some cap.
+Proof. exact cs_config_effect. Qed.
+Print Assumptions mgmt_effect_cs_config.
+
+(* ---- mtu_floor: an accepted MTU is stored (capped at the maximum packet size) and always leaves a positive fragment
+   payload, whatever link-service options are on, with a PIT token and a congestion mark attached ---- *)
+Theorem mtu_floor : forall st vs c a f m st' vs' echo,
+  has_params c a -> face_get (s_faces st) (acts_on c a) = Some f -> a_mtu a = Some m ->
+  face_update st vs c = Ok st' vs' (RCtl 200 echo (c_inface c)) ->
+  exists f', face_get (s_faces st') (f_id f) = Some f' /\
+             f_mtu f' = N.min m k_max_ndn_packet_size /\ k_FaceModule_update_min_mtu <= m /\
+             forall o, header_overhead o + k_pit_token_overhead + k_congestion_mark_overhead < f_mtu f'.
+Proof. exact face_update_mtu. Qed.
+Print Assumptions mtu_floor.
+
+(* ---- bad parameters are answered with a 4xx status (and, by mgmt_reject_pure, change nothing) ---- *)
+Theorem mgmt_refuses_missing_params : forall rib_to_fib face_cleanup st vs c, no_params c ->
+  refused (rib_register rib_to_fib st vs c) st vs c 400 /\ refused (rib_unregister rib_to_fib st vs c) st vs c 400 /\
+  refused (fib_add st vs c) st vs c 400 /\ refused (fib_remove_cmd st vs c) st vs c 400 /\
+  refused (strat_set_cmd st vs c) st vs c 400 /\ refused (strat_unset_cmd st vs c) st vs c 400 /\
+  refused (cs_config st vs c) st vs c 400 /\ refused (face_create st vs c) st vs c 400 /\
+  refused (face_update st vs c) st vs c 400 /\ refused (face_destroy face_cleanup st vs c) st vs c 400.
+Proof. exact missing_params_refused. Qed.
+Print Assumptions mgmt_refuses_missing_params.
+
+Theorem mgmt_refuses_unknown_face : forall rib_to_fib st vs c a nm, has_params c a -> a_name a = Some nm ->
+  explicit_face a = true -> face_exists st (acts_on c a) = false ->
+  refused (rib_register rib_to_fib st vs c) st vs c 410 /\ refused (fib_add st vs c) st vs c 410.
+Proof. exact unknown_face_refused. Qed.
+Print Assumptions mgmt_refuses_unknown_face.
+
+Theorem mgmt_refuses_strategy_without_component : forall st vs c a nm sn, has_params c a -> a_name a = Some nm ->
+  a_strategy a = Some sn -> (is_prefix strategy_prefix sn = false \/ (length sn <= length strategy_prefix)%nat) ->
+  refused (strat_set_cmd st vs c) st vs c 404.
+Proof. exact strategy_without_component_refused. Qed.
+Print Assumptions mgmt_refuses_strategy_without_component.
+
+Theorem mgmt_refuses_small_mtu : forall st vs c a f m, has_params c a -> face_get (s_faces st) (acts_on c a) = Some f ->
+  (f_rscheme f =? sch_null) || (f_rscheme f =? sch_internal) = false ->
+  a_mtu a = Some m -> m < k_FaceModule_update_min_mtu ->
+  refused (face_update st vs c) st vs c 409.
+Proof. exact small_mtu_refused. Qed.
+Print Assumptions mgmt_refuses_small_mtu.
+
+Theorem mgmt_refuses_out_of_range : forall rib_to_fib st vs c a,
+  has_params c a ->
+  (forall cap, isSome (a_flags a) = isSome (a_mask a) -> a_capacity a = Some cap -> k_ContentStoreModule_config_max_capacity < cap ->
+     refused (cs_config st vs c) st vs c 400) /\
+  (forall nm e, a_name a = Some nm -> explicit_face a && negb (face_exists st (acts_on c a)) = false ->
+     a_exp a = Some e -> k_RIBModule_register_max_expiration < e -> refused (rib_register rib_to_fib st vs c) st vs c 400).
+Proof.
+  exact (fun rtf st vs c a Hp => conj (fun cap H1 H2 H3 => huge_capacity_refused st vs c a cap Hp H1 H2 H3)
+                                      (fun nm e H1 H2 H3 H4 => huge_expiration_refused rtf st vs c a nm e Hp H1 H2 H3 H4)).
+Qed.
+Print Assumptions mgmt_refuses_out_of_range.
+
+(* ---- non-vacuity: a concrete state meeting the invariants, and a history that registers a route from the requesting
+   face with the defaults, sets a strategy, lowers an MTU to the floor and reads the RIB back ---- *)
+Definition ex_opts : fopts := Build_fopts false false false false true 100000000 65536.
+Definition ex_state : state :=
+  Build_state [] (initial_fib false 1) initial_strat 1024
+    [Build_faceT 1 sch_internal sch_internal 1 0 0 8800 true ex_opts 1 1; Build_faceT 2 sch_udp4 sch_udp4 0 0 0 1500 true ex_opts 2 3].
+Definition ex_name (ws : list (list N)) : name := map gcomp ws.
+Definition ex_ab : name := ex_name [[97]; [98]].
+Definition ex_args : cargs := Build_cargs (Some ex_ab) None None None None None None None None None None None None None.
+Definition ex_cmd (module verb : list N) (a : cargs) : cmd :=
+  Build_cmd 2 (local_prefix ++ ex_name [module; verb; [104]]) (Some a) 0 QErr.
+Definition ex_history : list cmd :=
+  [ ex_cmd w_rib [114;101;103;105;115;116;101;114] ex_args;
+    ex_cmd w_strategy_choice [115;101;116]
+      (Build_cargs (Some ex_ab) None None None None None None None (Some (strategy_prefix ++ [gcomp [109;117;108;116;105;99;97;115;116]])) None None None None None);
+    ex_cmd w_faces [117;112;100;97;116;101] (Build_cargs None None None None None None None None None None None None None (Some 64));
+    Build_cmd 2 (local_prefix ++ ex_name [w_rib; w_list]) None 0 QErr ].
+Example c17_example :
+  inv ex_state = true /\
+  match run_trace (fun r _ f => f) (fun _ r f => (r, f)) false ex_state (Build_vers 0 0 0 0 0 0) ex_history with
+  | Some [(_, _, RCtl 200 _ 2, s1); (_, _, RCtl 200 _ 2, s2); (_, _, RCtl 200 _ 2, s3); (_, _, RData (NRibList _) 0 (DRib t), _)] =>
+      rib_find (s_rib s1) ex_ab 2 0 = Some (Build_route 2 0 0 1 None) /\
+      strat_find (s_strat s2) ex_ab = Some (strategy_prefix ++ [gcomp [109;117;108;116;105;99;97;115;116]; version_comp 1]) /\
+      option_map f_mtu (face_get (s_faces s3) 2) = Some 64 /\ t = s_rib s1
+  | _ => False
+  end.
+Proof. vm_compute. repeat split. Qed.
